@@ -76,6 +76,7 @@ func runC06(c *Check, a *Analysis) {
 	sc := siteCounter{}
 	ruleHeaderFresh(c, a, "R-HEADER-FRESH")
 	ruleSeqMonotone(c, a, "R-SEQ-MONOTONE")
+	ruleMarkDeadExact(c, a, "R-MARK-DEAD-EXACT")
 	ruleCodeThresholds(c, a, "R-CODE-THRESHOLD")
 	ruleReaderExitCause(c, a, "R-READER-EXIT-CAUSE")
 
